@@ -22,6 +22,13 @@ func TestC13Rapid(t *testing.T) {
 				gp = append(gp, int64(rapid.SampledFrom([]int{1, 2, 10, 1000}).Draw(rt, "gpower")))
 			}
 		}
+		if nGen >= 2 && rapid.IntRange(0, 5).Draw(rt, "zeroPowerGenesis") == 0 {
+			for len(gp) < nGen {
+				gp = append(gp, 1)
+			}
+			gp[rapid.IntRange(1, nGen-1).Draw(rt, "zeroAt")] = -1
+			c.Class("genesis-entry-without-power")
+		}
 		w, err := newValWorld(nGen, maxVals, uint32(rapid.SampledFrom([]int{0, 1, 3, 100}).Draw(rt, "retention")), gp...)
 		if err != nil {
 			rt.Fatalf("C13 violated at genesis: %v", err)
